@@ -517,6 +517,19 @@ func (ctx *context) compareNodesetsAndPush(
 		set2 = op2.(nodesetDatum).literalSlice()
 	}
 
+	// A multi-valued leaf-list arrives as a datum slice: like a nodeset it
+	// compares existentially, whichever side of the operator it is on.
+	if isDatumSlice(op1) {
+		set1 = op1.DatumSlice(operator)
+	}
+	if isDatumSlice(op2) {
+		set2 = op2.DatumSlice(operator)
+	}
+	if len(set1) == 0 || len(set2) == 0 {
+		ctx.pushDatum(NewBoolDatum(false))
+		return
+	}
+
 	ctx.compareAndPushNodesets(
 		set1, set2, boolCompare, litCompare, numCompare)
 }
@@ -541,8 +554,8 @@ func (ctx *context) popCompareEqualityAndPush(
 	op2 := ctx.popDatum()
 	op1 := ctx.popDatum()
 
-	op1IsNodeset := isNodeset(op1)
-	op2IsNodeset := isNodeset(op2)
+	op1IsNodeset := isNodeset(op1) || isDatumSlice(op1)
+	op2IsNodeset := isNodeset(op2) || isDatumSlice(op2)
 
 	switch {
 	case op1IsNodeset || op2IsNodeset:
@@ -581,8 +594,8 @@ func (ctx *context) popCompareRelationalAndPush(
 	op2 := ctx.popDatum()
 	op1 := ctx.popDatum()
 
-	op1IsNodeset := isNodeset(op1)
-	op2IsNodeset := isNodeset(op2)
+	op1IsNodeset := isNodeset(op1) || isDatumSlice(op1)
+	op2IsNodeset := isNodeset(op2) || isDatumSlice(op2)
 
 	switch {
 	case op1IsNodeset || op2IsNodeset:
